@@ -391,6 +391,59 @@ def main():
         if r["id"].endswith("-excl-known") and r["status"] == "sat":
             pass  # already reported as a violation with region 'general' by the replay above
 
+    # ------------------------------------------------------------------ T: Integer -> Text, type level (string theory)
+    # The value kernel is a format! call (not encodable), but its result on integers is the decimal spelling, which the
+    # solvers' string theory has (str.from_int): for a grid of source ranges the real converted type is taken from the
+    # driver and the solver searches the whole range for an integer whose spelling lies outside it (lexicographic order
+    # on strings, as Intervals<String>). Replay through the real as_data_type and contains.
+    tgrid = [(-50, 100), (-500, 1000), (-1000, 1000), (0, 1000), (100, 999), (-999, -100), (0, 5), (-3, 3), (7, 7), (-128, 127), (-99, 100), (10, 300), (-9, 200), (-100000, 999999), (-10, 1000000)]
+    if tier != "quick":
+        tgrid += [(-(10 ** k), 10 ** k2) for k in range(1, 7) for k2 in range(1, 7)] + [(-(10 ** k) + 1, 10 ** k2 - 1) for k in range(1, 7) for k2 in range(1, 7)]
+    dt_ = driver.Driver(20.0)
+    tq_, tmeta = [], {}
+    esc = lambda t: '"' + t.replace('"', '""') + '"'
+    for ti, (lo, hi) in enumerate(tgrid):
+        a = dt_.call(dict(op="inject", **{"from": driver.t_int((lo, hi)), "to": {"t": "Text", "iv": []}}, values=[]))
+        img = (a.get("variant") or {}).get("ok")
+        if img is None or img.get("t") != "Text":
+            continue
+        alts = []
+        printable = True
+        for l_, h_ in img["iv"]:
+            c_ = []
+            if l_ not in ("", "\u0000"):
+                printable = printable and all(32 <= ord(ch) < 127 for ch in l_)
+                c_.append("(str.<= %s tx)" % esc(l_))
+            if not (len(h_) == 1 and ord(h_) >= 0xFFFF) and not (len(h_) == 2 and 0xD800 <= ord(h_[0]) <= 0xDBFF):
+                printable = printable and all(32 <= ord(ch) < 127 for ch in h_)
+                c_.append("(str.<= tx %s)" % esc(h_))
+            alts.append(land(c_))
+        if not printable:
+            continue
+        script = "\n".join(["(declare-const x Int)", "(define-fun tx () String (ite (< x 0) (str.++ \"-\" (str.from_int (- x))) (str.from_int x)))",
+                            "(assert (and (<= %s x) (<= x %s)))" % (smt.int_lit(lo), smt.int_lit(hi)), "(assert %s)" % lnot(lor(alts))])
+        qid = "T/%d" % ti
+        tq_.append(dict(id=qid, script=script, values=["x"], solvers=["cvc5", "z3new"]))
+        tmeta[qid] = dict(rng=(lo, hi), image=img, image_s=(a.get("variant") or {}).get("s"))
+    tres = smt.solve_all(tq_, tq, workers=8) if tq_ else []
+    ck.count(tres)
+    n_text = len(tq_)
+    for r in tres:
+        if r["status"] != "sat":
+            continue
+        info = tmeta[r["id"]]
+        xv = int(r["model"]["x"])
+        rv = dt_.call(dict(op="as_data_type", v=driver.v_int(xv), to={"t": "Text", "iv": [["\u0000", "\U0010ffff"]]}))
+        inside = dt_.call(dict(op="contains", dt=info["image"], values=[rv["ok"]])).get("ok", [None])[0] if "ok" in rv else None
+        if inside is False:
+            confirmed += 1
+            ck.violation("injection=Integer->Text/value-outside-converted-type", "the integer %d of int[%d %d] converts to %s, which is outside the converted type %s" % (xv, info["rng"][0], info["rng"][1], rv.get("s") or json.dumps(rv.get("ok")), info["image_s"]),
+                         dict(x=xv, source=list(info["rng"]), image=info["image"]))
+        else:
+            unconfirmed += 1
+            ck.inconclusive("Integer -> Text counterexample %s (x = %d, range %s, image %s) did not reproduce: %s contains=%s" % (r["id"], xv, info["rng"], info["image_s"], json.dumps(rv)[:100], inside))
+    dt_.close()
+
     nA = sum(1 for q in queries if q["id"].startswith("A/"))
     nB = sum(1 for q in queries if q["id"].startswith("B/"))
     cov = dict(
@@ -400,7 +453,7 @@ def main():
         callees_modelled=sorted(set(c for k in K.values() for c in k.callees)),
         not_translatable=not_translatable,
         bounds=dict(width="full 64-bit bit-vectors / IEEE double", loops="none (kernels are loop-free)", grid_points=len(grid),
-                    outside=["->Text/Bytes conversions (formatting)", "Date/DateTime kernels (chrono calls)", "composite liftings (Struct/Union/Optional/List/Set/Array)",
+                    integer_to_text_queries=n_text, outside=["->Text/Bytes conversions other than the type-level image of Integer -> Text (part T, string theory)", "Date/DateTime kernels (chrono calls)", "composite liftings (Struct/Union/Optional/List/Set/Array)",
                              "source types that trigger the values_len hang (C18)"]),
         lemma_queries=nA, grid_queries=nB, counterexamples_replayed=confirmed + unconfirmed, counterexamples_confirmed=confirmed,
         translator_validation_points=tv_n,
